@@ -409,7 +409,13 @@ func (s *OuterJoin) receiveRecord(ctx ExecutionContext, produce ProduceFn, myRec
 						copy(outputValues, subitemTyped.GroupKey)
 					}
 
-					if err := produce(ProduceFromExecutionContext(ctx), NewRecord(outputValues, true, subitemTyped.EventTimes[i])); err != nil {
+					// The null record stops being valid at the moment of the current record, not when it was originally sent.
+					// Using its original event time could retract it before an already sent watermark.
+					eventTime := subitemTyped.EventTimes[i]
+					if record.EventTime.After(eventTime) {
+						eventTime = record.EventTime
+					}
+					if err := produce(ProduceFromExecutionContext(ctx), NewRecord(outputValues, true, eventTime)); err != nil {
 						outErr = fmt.Errorf("couldn't produce: %w", err)
 						return false
 					}
@@ -466,7 +472,12 @@ func (s *OuterJoin) receiveRecord(ctx ExecutionContext, produce ProduceFn, myRec
 						copy(outputValues, subitemTyped.GroupKey)
 					}
 
-					if err := produce(ProduceFromExecutionContext(ctx), NewRecord(outputValues, false, subitemTyped.EventTimes[i])); err != nil {
+					// The null record becomes valid at the moment of the current retraction.
+					eventTime := subitemTyped.EventTimes[i]
+					if record.EventTime.After(eventTime) {
+						eventTime = record.EventTime
+					}
+					if err := produce(ProduceFromExecutionContext(ctx), NewRecord(outputValues, false, eventTime)); err != nil {
 						outErr = fmt.Errorf("couldn't produce: %w", err)
 						return false
 					}
